@@ -14,7 +14,7 @@ pub enum FileKind { Authentic, CorruptFirst, CorruptLater, Truncated, Extended, 
 #[derive(Clone, Copy, Debug, Serialize, Deserialize, PartialEq)]
 pub enum Req { KeyEnc, KeyDec(FileKind), PassEnc, PassDec(FileKind), PassDecWrongPw }
 #[derive(Clone, Copy, Debug, Serialize, Deserialize, PartialEq)]
-pub enum SenderPos { First, Last, Absent, OnlyWithRecipient }
+pub enum SenderPos { First, Last, Absent, OnlyWithRecipient, AbsentCaseVariantPresent }
 #[derive(Clone, Copy, Debug, Serialize, Deserialize, PartialEq, Eq, Hash)]
 pub struct Wiring { pub stdin_in: bool, pub stdout_out: bool, pub env_keyring: bool, pub short_opts: bool, pub alias: bool, pub opts_first: bool }
 #[derive(Clone, Copy, Debug, Serialize, Deserialize, PartialEq)]
@@ -47,12 +47,16 @@ pub fn check(c: &Case) -> CheckResult {
     let id = ids(); let p = c.plain.bytes(); let lens = lens_for(p.len(), &c.chunks);
     let dave = CliIdent { name: "dave".into(), sk: [0; 32], pk: kspec::x25519_base(&[9u8; 32]), epk: kspec::encode_public_key(&kspec::x25519_base(&[9u8; 32])), esk: String::new(), password: String::new() };
     let alice_ident = kx::Ident { sk: id.alice.sk, pk: id.alice.pk };
+    // an entry whose encoded key is the sender's with the letter case exchanged: another key, not the sender
+    let swapped: String = id.alice.epk.chars().map(|c| if c.is_ascii_lowercase() { c.to_ascii_uppercase() } else { c.to_ascii_lowercase() }).collect();
+    let variant = CliIdent { name: "mallory".into(), sk: [0; 32], pk: [0; 32], epk: swapped, esk: String::new(), password: String::new() };
     // keyring: recipient bob always present; the sender's entry first / last / absent
     let entries: Vec<(&CliIdent, bool)> = match (c.req, c.pos) {
         (Req::KeyEnc, _) => vec![(&id.carol, false), (&id.alice, true), (&id.bob, false)],
         (_, SenderPos::First) => vec![(&id.alice, false), (&id.carol, false), (&id.bob, true), (&dave, false)],
         (_, SenderPos::Last) => vec![(&id.carol, false), (&id.bob, true), (&dave, false), (&id.alice, true)],
         (_, SenderPos::Absent) => vec![(&id.carol, false), (&id.bob, true)],
+        (_, SenderPos::AbsentCaseVariantPresent) => vec![(&variant, false), (&id.bob, true), (&id.carol, false)],
         (_, SenderPos::OnlyWithRecipient) => vec![(&id.bob, true), (&id.alice, false)],
     };
     let kr = cli::keyring_text(&entries);
@@ -136,9 +140,9 @@ pub fn check(c: &Case) -> CheckResult {
             }
             // (3) sender line
             if let Req::KeyDec(_) = c.req {
-                let want = if c.pos == SenderPos::Absent { format!("Unknown key: {}", id.alice.epk) } else { "Success. File from: alice".to_string() };
+                let want = if matches!(c.pos, SenderPos::Absent | SenderPos::AbsentCaseVariantPresent) { format!("Unknown key: {}", id.alice.epk) } else { "Success. File from: alice".to_string() };
                 ensure!(sender_line.as_deref() == Some(want.as_str()), "[{:?}] after a successful decryption stderr says {:?}, expected {:?}", w, sender_line, want);
-                if c.pos == SenderPos::Absent { ensure!(err.contains("unknown key"), "unknown sender not reported as such"); }
+                if matches!(c.pos, SenderPos::Absent | SenderPos::AbsentCaseVariantPresent) { ensure!(err.contains("unknown key"), "unknown sender not reported as such"); }
             }
         } else if is_dec && r.code == Some(1) && !sink_special {
             ensure!(sender_line.is_none(), "[{:?}] a failed decryption still printed a sender line: {:?}", w, sender_line);
@@ -165,8 +169,8 @@ fn pass_file_cached(p: &[u8], lens: &[usize]) -> Vec<u8> {
 fn kind_strategy() -> impl Strategy<Value = FileKind> { prop_oneof![3 => Just(FileKind::Authentic), 1 => Just(FileKind::CorruptFirst), 2 => Just(FileKind::CorruptLater), 1 => Just(FileKind::Truncated), 1 => Just(FileKind::Extended), 1 => Just(FileKind::WrongRecipient), 1 => Just(FileKind::WrongMode), 1 => Just(FileKind::Garbage)] }
 pub fn strat() -> impl Strategy<Value = Case> {
     let req = prop_oneof![3 => Just(Req::KeyEnc), 6 => kind_strategy().prop_map(Req::KeyDec), 1 => Just(Req::PassEnc), 2 => kind_strategy().prop_map(Req::PassDec), 1 => Just(Req::PassDecWrongPw)];
-    let plain = prop_oneof![6 => gen::small_plain(300), 1 => gen::plain_strategy(200_000)];
-    (req, plain, proptest::collection::vec(1usize..60, 0..5), prop_oneof![Just(SenderPos::First), Just(SenderPos::Last), Just(SenderPos::Absent), Just(SenderPos::OnlyWithRecipient)], proptest::collection::vec((0usize..64).prop_map(wiring_from), 2..4), prop_oneof![8 => Just(Sink::Healthy), 1 => Just(Sink::DevFull), 1 => Just(Sink::ClosedPipe)], any::<u64>())
+    let plain = prop_oneof![1 => any::<u64>().prop_map(|seed| Plain { len: 0, seed }), 6 => gen::small_plain(300), 1 => gen::plain_strategy(200_000)];
+    (req, plain, proptest::collection::vec(1usize..60, 0..5), prop_oneof![Just(SenderPos::First), Just(SenderPos::Last), Just(SenderPos::Absent), Just(SenderPos::OnlyWithRecipient), Just(SenderPos::AbsentCaseVariantPresent)], proptest::collection::vec((0usize..64).prop_map(wiring_from), 2..4), prop_oneof![8 => Just(Sink::Healthy), 1 => Just(Sink::DevFull), 1 => Just(Sink::ClosedPipe)], any::<u64>())
         .prop_map(|(req, plain, chunks, pos, mut wirings, sink, sel)| { wirings.insert(0, wiring_from(0)); Case { req, plain, chunks, pos, wirings, sink, sel } })
 }
 
@@ -180,6 +184,9 @@ pub fn run(ctx: &Ctx) {
     for (i, req) in [Req::KeyEnc, Req::KeyDec(FileKind::Authentic), Req::KeyDec(FileKind::CorruptLater), Req::PassEnc, Req::PassDec(FileKind::Authentic)].into_iter().enumerate() {
         for chunk in all.chunks(8) { sse.push(Case { req, plain: Plain { len: 23, seed: ctx.seed + i as u64 }, chunks: vec![5, 6, 7], pos: SenderPos::Last, wirings: std::iter::once(wiring_from(0)).chain(chunk.iter().cloned()).collect(), sink: Sink::Healthy, sel: ctx.seed }); }
     }
+    // the empty plaintext and the look-alike keyring entry, deterministically
+    for req in [Req::KeyDec(FileKind::Authentic), Req::PassDec(FileKind::Authentic), Req::KeyEnc, Req::PassEnc] { sse.push(Case { req, plain: Plain { len: 0, seed: 1 }, chunks: vec![], pos: SenderPos::First, wirings: vec![wiring_from(0), wiring_from(2), wiring_from(3)], sink: Sink::Healthy, sel: 5 }); }
+    sse.push(Case { req: Req::KeyDec(FileKind::Authentic), plain: Plain { len: 40, seed: 2 }, chunks: vec![9], pos: SenderPos::AbsentCaseVariantPresent, wirings: vec![wiring_from(0), wiring_from(6)], sink: Sink::Healthy, sel: 6 });
     ctx.sse_vec("all_wirings", "5 requests x all 64 wiring combinations (8 per case, each compared with the canonical wiring)", sse, check);
     ctx.pbt("requests_x_wirings", ctx.n(220, 8_000), strat, check);
 }
